@@ -162,10 +162,10 @@ type Thread struct {
 	nspawn     int
 	nobj       int
 
-	hb  [6]hbAct
-	nhb int
-	out byte // race build: the thread's clock at its last park
-	pcs map[uint64]stackInfo
+	hb      [6]hbAct
+	nhb     int
+	out     byte // race build: the thread's clock at its last park
+	pcs     map[uint64]stackInfo
 	rootPtr unsafe.Pointer
 
 	// run-length cap on identical consecutive observations (see note)
